@@ -85,7 +85,40 @@ def all_commands(r, width_filter=None):
             continue
         if width_filter is None or len(c.frame) == width_filter:
             out.append(c)
+    # commands of classes an application derived from the library's: on the wire they are their parents
+    import dali.gear.general as gg
+    import dali.gear.led as led
+    import dali.device.general as dg
+    global _DERIVED
+    if not _DERIVED:
+        for b in (gg.SetFadeTime, gg.QueryStatus, gg.DAPC, gg.GoToScene, led.QueryGearType, led.SelectDimmingCurve, dg.IdentifyDevice,
+                  dg.QueryInstanceType, gg.DTR0):
+            _DERIVED.append((b, type("Traced" + b.__name__, (b,), {"__module__": "application"})))
+    for b, dcls in _DERIVED:
+        proto = next((c for c in out if type(c) is b), None)
+        if proto is None:
+            continue
+        try:
+            if hasattr(proto, "instance"):
+                c = dcls(proto.destination, proto.instance)
+            elif hasattr(proto, "destination") and hasattr(proto, "param"):
+                c = dcls(proto.destination, proto.param)
+            elif hasattr(proto, "destination") and hasattr(proto, "power"):
+                c = dcls(proto.destination, (proto.power + 1) % 255)
+            elif hasattr(proto, "destination"):
+                c = dcls(A.GearShort((proto.destination.address + 1) % 64) if isinstance(proto.destination, A.GearShort)
+                         else A.DeviceShort((getattr(proto.destination, "address", 0) + 1) % 64) if isinstance(proto.destination, A.DeviceShort)
+                         else proto.destination)
+            else:
+                c = dcls((proto.param + 1) % 256)
+        except Exception:
+            continue
+        if width_filter is None or len(c.frame) == width_filter:
+            out.append(c)
     return out
+
+
+_DERIVED = []
 
 
 def luba_priority(cmd):
